@@ -1,6 +1,7 @@
 // C19 — index bases are transparent: the C01 / C02 programs on re-based roots (extensions starting at -3..3, reindexed, blocked)
 #include "../c02.hpp"
 #include "../c06based.hpp"
+#include "../c05.hpp"
 
 using vp::based::run_c06_based;
 
@@ -9,6 +10,7 @@ struct Prop {
 	static constexpr char const* id = "C19";
 	static constexpr int H = 13, R = 4, MAXOPS = 10;
 	static void run(vp::Input const& in, vp::Ctx& ctx) {
+		if((in.head(12) % 5U) == 4) { ctx.desc << "[C05-program] "; vp::c05::run_c05<vp::CfgBased>(in, ctx); ctx.label("program_C05"); return; }
 		if((in.head(12) % 4U) == 3) { ctx.desc << "[C06-program] "; if((in.head(1) & 1U) != 0) { run_c06_based<2>(in, ctx); } else { run_c06_based<1>(in, ctx); } return; }
 		if((in.head(12) & 1U) == 0) { ctx.desc << "[C01-program] "; vp::run_c01<vp::CfgBased>(in, ctx); ctx.label("program_C01"); }
 		else { ctx.desc << "[C02-program] "; vp::run_c02<vp::CfgBased>(in, ctx); ctx.label("program_C02"); }
